@@ -203,12 +203,12 @@ func (World) Execute(t *testing.T, s *engine.Script) *engine.Outcome {
 // ---------------------------------------------------------------- C05
 
 type message struct {
-	kind   string
-	raw    []byte
-	frame  *refmodel.Frame
-	idSig  int
-	idKey  []byte
-	faults []string
+	kind     string
+	raw      []byte
+	frame    *refmodel.Frame
+	idSig    int
+	idKey    []byte
+	faults   []string
 	replayed bool
 }
 
@@ -917,7 +917,9 @@ func c06Check(o *engine.Outcome, sh *engine.Shape, count bool, ef *engine.Fault)
 	}
 	var accepted, parsed bool
 	var consumed int
-	o.Guard("floodfill", func() { accepted, consumed, parsed, _ = floodfill(sh.Kind, append([]byte(nil), b...), c.idSig, c.idKey) })
+	o.Guard("floodfill", func() {
+		accepted, consumed, parsed, _ = floodfill(sh.Kind, append([]byte(nil), b...), c.idSig, c.idKey)
+	})
 	if !parsed {
 		if sh.Kind == "ls2" && len(b) < 499 {
 			// a specific, recorded corner: the parser refuses anything shorter
